@@ -49,11 +49,12 @@ pub struct Ctx<'a> {
     pub p: u32,
     pub l: usize,
     pub canon: bool,
+    pub mutate: u32,
 }
 
 impl<'a> Ctx<'a> {
     pub fn spec(&self) -> Spec<'a> {
-        Spec { resolve: self.resolve, p: self.p, l: self.l }
+        Spec { resolve: self.resolve, p: self.p, l: self.l, mutate: self.mutate }
     }
     fn machine(&self) -> Machine<'a> {
         Machine::new(self.resolve, self.sizes, self.p, self.l)
